@@ -388,14 +388,17 @@ theorem cttc_res (a b : Circ) (w : Nat → ℝ) :
       if cttcG a b w < cttcH a b w then -cttcDist a b w + |w a.radius - w b.radius|
       else w a.radius + w b.radius - cttcDist a b w := rfl
 
-theorem cttc_jac (a b : Circ) :
+theorem cttc_jac (a b : Circ) (hg : ¬ cttcDist a b v < (EPS : ℝ)) :
     ((Constraint.circleTangentToCircle a b).jacobianV v).r0 =
       [⟨a.center.x, (-v a.center.x + v b.center.x) * (1.0 / cttcDist a b v)⟩,
        ⟨a.center.y, (-v a.center.y + v b.center.y) * (1.0 / cttcDist a b v)⟩,
        ⟨a.radius, if cttcG a b v < cttcH a b v then (if v b.radius < v a.radius then 1.0 else -1.0) else 1.0⟩,
        ⟨b.center.x, -(-v a.center.x + v b.center.x) * (1.0 / cttcDist a b v)⟩,
        ⟨b.center.y, -(-v a.center.y + v b.center.y) * (1.0 / cttcDist a b v)⟩,
-       ⟨b.radius, if cttcG a b v < cttcH a b v then (if v b.radius < v a.radius then -1.0 else 1.0) else 1.0⟩] := rfl
+       ⟨b.radius, if cttcG a b v < cttcH a b v then (if v b.radius < v a.radius then -1.0 else 1.0) else 1.0⟩] := by
+  simp only [Constraint.jacobianV]
+  rw [if_neg (by simpa [cttcDist, sqrt_real, sqr] using hg)]
+  rfl
 
 theorem cttcG_cont (a b : Circ) : Continuous (fun t => cttcG a b (lineThrough v u t)) := by
   unfold cttcG cttcDist lineThrough; fun_prop
@@ -403,24 +406,26 @@ theorem cttcG_cont (a b : Circ) : Continuous (fun t => cttcG a b (lineThrough v 
 theorem cttcH_cont (a b : Circ) : Continuous (fun t => cttcH a b (lineThrough v u t)) := by
   unfold cttcH cttcDist lineThrough; fun_prop
 
-/-- Regular points of `CircleTangentToCircle`: the centres are distinct (the code divides by their
-distance without a guard), the internal/external choice is strict (the two "how far from
+/-- Regular points of `CircleTangentToCircle`: the centres are at least `EPSILON` apart (the
+Jacobian's guard, added by the fix for finding F22, is inactive), the internal/external choice is strict (the two "how far from
 tangency" measures differ, so the same branch is taken in a neighbourhood), and when the internal
 branch is taken the radii differ (so `|ar − br|` is differentiable). -/
 def RegularCTTC (a b : Circ) (v : Nat → ℝ) : Prop :=
-  (v a.center.x - v b.center.x) * (v a.center.x - v b.center.x)
-    + (v a.center.y - v b.center.y) * (v a.center.y - v b.center.y) ≠ 0 ∧
+  ¬ cttcDist a b v < (EPS : ℝ) ∧
   cttcG a b v ≠ cttcH a b v ∧
   (cttcG a b v < cttcH a b v → v a.radius ≠ v b.radius)
 
 theorem deriv_circleTangentToCircle (a b : Circ) (hreg : RegularCTTC a b v) :
     DerivRow (.circleTangentToCircle a b) v u (·.r0) (·.r0) := by
-  obtain ⟨hne, hside, hrad⟩ := hreg
+  obtain ⟨hg, hside, hrad⟩ := hreg
   unfold DerivRow
-  simp only [cttc_res, cttc_jac]
-  have hdpos : 0 < cttcDist a b v := by
-    unfold cttcDist
-    exact Real.sqrt_pos.mpr (lt_of_le_of_ne (add_nonneg (mul_self_nonneg _) (mul_self_nonneg _)) (Ne.symm hne))
+  simp only [cttc_res, cttc_jac v a b hg]
+  have hdpos : 0 < cttcDist a b v := lt_of_lt_of_le EPS_pos (not_lt.mp hg)
+  have hne : (v a.center.x - v b.center.x) * (v a.center.x - v b.center.x)
+      + (v a.center.y - v b.center.y) * (v a.center.y - v b.center.y) ≠ 0 := by
+    intro h0
+    have : cttcDist a b v = 0 := by unfold cttcDist; rw [h0, Real.sqrt_zero]
+    linarith
   have hcG := (cttcG_cont v u a b).continuousAt (x := 0)
   have hcH := (cttcH_cont v u a b).continuousAt (x := 0)
   have hcR : ContinuousAt (fun t => lineThrough v u t a.radius - lineThrough v u t b.radius) 0 := by
@@ -518,11 +523,11 @@ example : RegularPAC1 ⟨⟨0, 1⟩, ⟨2, 3⟩, ⟨4, 5⟩⟩ ⟨2, 3⟩ pacExa
 /-- Internal tangency: circles `(0,0), r = 2` and `(1,0), r = 1` (ids 0…5). -/
 example : RegularCTTC ⟨⟨0, 1⟩, 2⟩ ⟨⟨3, 4⟩, 5⟩
     (fun i => if i = 2 then 2 else if i = 3 ∨ i = 5 then 1 else 0) := by
-  norm_num [RegularCTTC, cttcG, cttcH, cttcDist]
+  norm_num [RegularCTTC, cttcG, cttcH, cttcDist, EPS_real]
 
 /-- External tangency with equal radii: circles `(0,0), r = 1/2` and `(1,0), r = 1/2`. -/
 example : RegularCTTC ⟨⟨0, 1⟩, 2⟩ ⟨⟨3, 4⟩, 5⟩
     (fun i => if i = 2 ∨ i = 5 then 1 / 2 else if i = 3 then 1 else 0) := by
-  norm_num [RegularCTTC, cttcG, cttcH, cttcDist]
+  norm_num [RegularCTTC, cttcG, cttcH, cttcDist, EPS_real]
 
 end Ezpz
